@@ -252,7 +252,17 @@ fn file_strategy(tier: Tier, cli: bool) -> BoxedStrategy<FileCase> {
             };
             let writer = if mmap && norm { Writer::Mmap } else { Writer::Batch };
             (gen::records(p), prop_oneof![40 => Just(None), 6 => (any::<u16>(), Just(600usize)).prop_map(Some), 3 => (any::<u16>(), Just(5_000usize)).prop_map(Some), 1 => (any::<u16>(), Just(70_000usize)).prop_map(Some)])
-                .prop_map(move |(recs, stretch)| FileCase { recs, k, norm, writer, delim: delim.to_string(), threads, header, stretch })
+                .prop_flat_map(move |(recs, stretch)| {
+                    let delim = delim.to_string();
+                    prop_oneof![6 => Just(None), 1 => (any::<u16>(), any::<u64>()).prop_map(Some)].prop_map(move |distinct| {
+                        let mut recs = recs.clone();
+                        // one record (followed by others) with exactly 255 / 256 / 257 / 1024 ... distinct canonical k-mers
+                        if let Some((pick, seed)) = distinct {
+                            gen::plant_distinct(&mut recs, k, pick, seed);
+                        }
+                        FileCase { recs, k, norm, writer, delim: delim.clone(), threads, header, stretch }
+                    })
+                })
         })
         .boxed()
 }
